@@ -77,7 +77,7 @@ Definition member_target (v : exp) : option (list N * loc) :=
   end.
 
 Definition mark_members (n : list N) (l : loc) (st : tstate) : tstate :=
-  mkT (upd_frames (var_hit n l) (fun v => mkV (v_name v) (v_loc v) (v_ref v) false) (t_frames st))
+  mkT (upd_frames (var_hit n l) (fun v => mkV5 (v_name v) (v_loc v) (v_ref v) false (v_init v) (v_tab v)) (t_frames st))
       (t_globals st) (t_occs st).
 
 Definition assign_member (v : exp) (st : tstate) : tstate :=
@@ -139,8 +139,8 @@ with trw_stat (flv slv : Z) (s : stat) (st : tstate) {struct s} : tstate :=
                                | _ => TgOther (fun s => s)
                                end) vars)
                 (map (fun e => (e, trw_exp flv e)) es) st
-  | SLocal ns ls _ es _ =>
-    local_loop (map (fun e => (e, trw_exp flv e)) es) (combine ns ls) RNone st
+  | SLocal ns ls _ es l =>
+    local_loop (map (fun e => (e, trw_exp flv e)) es) (combine ns ls) RNone (init_loc ns ls es l) st
   | SLocalFunc n nl f _ => trw_exp flv f (add_var (mkV n nl (ref_of_exp f) false) st)
   end
 with trw_block (flv slv : Z) (b : block) (st : tstate) {struct b} : tstate :=
